@@ -100,20 +100,39 @@ Proof.
   induction d as [|a d IH]; simpl; intros H; auto. destruct (p a); simpl; [rewrite (H a) by auto; simpl|]; apply IH; auto.
 Qed.
 
-Lemma FSInv_init c pre tick0 t0 : PreOK pre tick0 -> FSInv c (init c pre tick0 t0).
+(** what a new appender needs of the directory it is built over, and what every lifetime leaves behind *)
+Definition GoodFS (s : state) : Prop :=
+  DirOK (dir s) (tick s) /\ Stored s /\ (forall l, In l (lands s) -> (l_life l <= life s)%nat).
+
+Lemma Stored_create s n : forall d tk, create n (dir s) (tick s) = (d, tk) ->
+  forall m, flat_map landed (filter (has_name m) (grave s ++ d)) = flat_map landed (filter (has_name m) (grave s ++ dir s)).
 Proof.
-  intros [HD HL]. unfold init.
-  destruct (create (join_date c t0) pre tick0) as [d tk] eqn:Hc.
-  assert (Hd : d = fst (create (join_date c t0) pre tick0)) by (rewrite Hc; reflexivity).
-  assert (Htk : tk = snd (create (join_date c t0) pre tick0)) by (rewrite Hc; reflexivity).
+  intros d tk Hc m. rewrite !filter_app, !flat_map_app. f_equal.
+  destruct (create_cases n (dir s) (tick s)) as [[E Hx]|[E Hx]]; rewrite Hx in Hc; inversion Hc; subst; auto.
+  rewrite filter_app, flat_map_app. simpl. destruct (has_name m _); simpl; rewrite app_nil_r; reflexivity.
+Qed.
+
+Lemma FSInv_restart c s t0 : next_ok (rot c) t0 = true -> DirOK (dir s) (tick s) -> Stored s -> FSInv c (restart c s t0).
+Proof.
+  intros Hok HD HS. unfold restart. rewrite Hok.
+  destruct (create (join_date c t0) (dir s) (tick s)) as [d tk] eqn:Hc.
+  assert (Hd : d = fst (create (join_date c t0) (dir s) (tick s))) by (rewrite Hc; reflexivity).
+  assert (Htk : tk = snd (create (join_date c t0) (dir s) (tick s))) by (rewrite Hc; reflexivity).
   unfold FSInv; simpl. split; [|split; [|split]].
   - subst. apply DirOK_create; auto.
   - subst. apply create_in.
-  - intro n. unfold Stored; simpl. unfold landed_in; simpl. apply flat_map_landed_nil.
-    intros f Hf. subst d. destruct (create_cases (join_date c t0) pre tick0) as [[E Hx]|[E Hx]]; rewrite Hx in Hf; simpl in Hf; auto.
-    apply in_app_or in Hf. destruct Hf as [Hf|[<-|[]]]; auto.
+  - intro n. unfold Stored; simpl. rewrite (Stored_create s (join_date c t0) d tk Hc n). apply HS.
   - unfold Limit; simpl. congruence.
 Qed.
+
+Lemma GoodFS_blank pre tick0 : PreOK pre tick0 -> GoodFS (blank pre tick0).
+Proof.
+  intros [HD HL]. unfold GoodFS, blank; simpl. split; [exact HD|split; [|tauto]].
+  intro n. unfold Stored; simpl. unfold landed_in; simpl. apply flat_map_landed_nil. exact HL.
+Qed.
+
+Lemma FSInv_init c pre tick0 t0 : next_ok (rot c) t0 = true -> PreOK pre tick0 -> FSInv c (init c pre tick0 t0).
+Proof. intros Hok H. destruct (GoodFS_blank pre tick0 H) as [HD [HS _]]. apply FSInv_restart; auto. Qed.
 
 (** fields the two lemmas above do not look at *)
 Lemma FSInv_ext c s s' :
